@@ -34,8 +34,20 @@ CREATE = {
     # (BV0, BV1 are NumPy views of BUF taken before anything is locked)
     "p": ("p = mg.add(x, A, out=BV0)", {"X", "A", "BUF", "BV0"}, ["x"], set()),
     "r": ("r = mg.multiply(x, A, out=BV1)", {"X", "A", "BUF", "BV1"}, ["x"], set()),
+    # arrays whose own flag differs from their owner's: a view the caller made read-only (owner writeable), a writeable view whose
+    # owner was made read-only afterwards, an array over a foreign buffer (its .base is not an ndarray)
+    "a": ("a = mg.multiply(x[:2], AVRO)", {"X", "A2", "AVRO", "Aa"}, ["x"], set()),
+    "b": ("b = mg.multiply(x[:2], RWV)", {"X", "R2", "RWV", "Bb"}, ["x"], set()),
+    "f": ("f = mg.multiply(x[:2], FB)", {"X", "FB", "Ff"}, ["x"], set()),
+    # in-place tensor updates inside the history: through a view that is dropped at once, through out= on temporaries, on the tensor itself
+    "i": ("i = +x\niv = i[:2]\niv *= 2.0\ndel iv", {"X", "I"}, ["x"], set()),
+    "g": ("g = x * 1.0\nmg.add(g[1:], 1.0, out=g[1:])", {"X", "G"}, ["x"], set()),
+    "h": ("h = x * A\nh[:1] = 5.0", {"X", "A", "H"}, ["x"], set()),
 }
-RESULT_ARRAY = {"y": "Y", "z": "Z", "v": "V", "o": "O", "q": "Q", "w": "W", "u": "U"}
+RESULT_ARRAY = {"y": "Y", "z": "Z", "v": "V", "o": "O", "q": "Q", "w": "W", "u": "U", "a": "Aa", "b": "Bb", "f": "Ff", "i": "I", "g": "G", "h": "H"}
+RESULT_NAMES = set(RESULT_ARRAY.values()) - {"O"} | {"Gx"}
+VIEW_OWNER = {"AV": "A", "AV2": "A", "BV0": "BUF", "BV1": "BUF", "AVRO": "A2", "RWV": "R2"}
+NATIVE_RO = {"R", "R2", "AVRO"}
 
 
 class Model:
@@ -163,13 +175,23 @@ def run_history(mg, prog):
     BUF = np.zeros((2, 3))
     x = mg.tensor([1.5, -2.0, 0.75])
     BV0, BV1 = BUF[0], BUF[1]
-    env = {"mg": mg, "np": np, "x": x, "A": A, "AV": AV, "R": Rr, "O": O, "B": B, "BUF": BUF, "BV0": BV0, "BV1": BV1}
-    original = {"A": True, "AV": True, "R": False, "O": True, "B": True, "AV2": True, "X": True, "BUF": True, "BV0": True, "BV1": True}
+    A2 = np.array([4.0, 5.0, 6.0])
+    AVRO = A2[:2]
+    AVRO.flags.writeable = False
+    R2 = np.array([7.0, 8.0, 9.0])
+    RWV = R2[:2]
+    R2.flags.writeable = False
+    FB = np.frombuffer(bytearray(16), dtype=float)
+    env = {"mg": mg, "np": np, "x": x, "A": A, "AV": AV, "R": Rr, "O": O, "B": B, "BUF": BUF, "BV0": BV0, "BV1": BV1,
+           "A2": A2, "AVRO": AVRO, "R2": R2, "RWV": RWV, "FB": FB}
+    original = {"A": True, "AV": True, "R": False, "O": True, "B": True, "AV2": True, "X": True, "BUF": True, "BV0": True, "BV1": True,
+                "A2": True, "AVRO": False, "R2": False, "RWV": True, "FB": True}
     model = Model()
     trace = []
 
     def arrays():
-        d = {"A": A, "AV": AV, "R": Rr, "O": O, "B": B, "BUF": BUF, "BV0": BV0, "BV1": BV1, "X": env["x"].data}
+        d = {"A": A, "AV": AV, "R": Rr, "O": O, "B": B, "BUF": BUF, "BV0": BV0, "BV1": BV1, "X": env["x"].data,
+             "A2": A2, "AVRO": AVRO, "R2": R2, "RWV": RWV, "FB": FB}
         if "AV2" in env:
             d["AV2"] = env["AV2"]
         for t, a in RESULT_ARRAY.items():
@@ -179,14 +201,14 @@ def run_history(mg, prog):
 
     def check(after):
         for name, arr in arrays().items():
-            sp = "original" if name == "R" else model.spec(name)
-            if name in ("AV", "AV2", "BV0", "BV1"):
+            sp = "original" if name in NATIVE_RO else model.spec(name)
+            if name in VIEW_OWNER and name not in NATIVE_RO:
                 if name not in model.entered:
                     continue  # a view that never entered an operation is outside the property (NumPy flags are per array object)
                 # a NumPy view's memory is its owner's: locked while the owner is, original only when both are
-                spA = model.spec("A" if name.startswith("AV") else "BUF")
+                spA = model.spec(VIEW_OWNER[name])
                 sp = "locked" if "locked" in (sp, spA) else (sp if spA == "original" else None)
-            if name in ("Y", "Z", "V", "Q", "W", "U", "Gx"):
+            if name in RESULT_NAMES:
                 if sp == "locked" and arr.flags.writeable:
                     return "after `%s`: result array %s of a live graph is writeable" % (after, name)
                 continue
@@ -210,9 +232,12 @@ def run_history(mg, prog):
     try:
         for st in prog:
             if st[0] == "create":
-                exec(CREATE[st[1]][0], env)
-                model.create(st[1])
                 label = CREATE[st[1]][0].replace("\n", "; ")
+                try:
+                    exec(CREATE[st[1]][0], env)
+                except Exception as e:  # every creation statement is a valid MyGrad call
+                    return "`%s` raised %s: %s" % (label, type(e).__name__, str(e)[:120])
+                model.create(st[1])
             elif st[0] == "event":
                 ev = st[1]
                 label = ev
@@ -251,9 +276,9 @@ def run_history(mg, prog):
             env.pop(n, None)
         env.pop("AV2", None) if False else None
         for name, arr in arrays().items():
-            if name in ("Y", "Z", "V", "Q", "W", "U", "Gx"):
+            if name in RESULT_NAMES:
                 continue
-            if name in ("AV", "AV2", "BV0", "BV1") and name not in model.entered:
+            if name in VIEW_OWNER and name not in model.entered:
                 continue
             if bool(arr.flags.writeable) != original[name]:
                 return "at quiescence: %s has writeable=%s, original %s" % (name, arr.flags.writeable, original[name])
